@@ -5,6 +5,8 @@ import Autog.Model.Phase2
 import Autog.Model.Phase4
 import Autog.Model.Phase5
 import Autog.Model.Layout
+import Autog.Model.Phase3
+import Autog.Model.SinkColoring
 /-! T-fun: the models run on the phase-boundary snapshots of real `Layout` runs; the result is compared,
     in canonical form, with the next snapshot. Driver side. -/
 
@@ -39,9 +41,10 @@ def firstDiffOut (a b : Out) : String :=
       | some (x, y) => s!"edge {x.src}>{x.dst} vs {y.src}>{y.dst}: {x.pts.map (·.length)} vs {y.pts.map (·.length)} points"
       | none => ""
 
-def tfunLayout (cfg : Cfg) (es : InEdges) (comps : List (List (Int × G))) (real : Out) : List TRes := Id.run do
+def tfunLayout (cfg : Cfg) (es : InEdges) (comps : List (List (Int × G))) (real : Out) (logged : Option (List Int)) : List TRes := Id.run do
   let mut out : List TRes := []
   let mut loopsOf : List (List Nat) := []
+  let mut logQ : List Int := logged.getD []
   -- everything before phase 1
   let pre := preProcess cfg es
   match pre with
@@ -70,11 +73,30 @@ def tfunLayout (cfg : Cfg) (es : InEdges) (comps : List (List (Int × G))) (real
         out := out ++ [cmpG "T:phase2-longestpath" m b]
       out := out ++ [cmpG "T:layers" (buildLayers { b with layers := #[] }) b]
     | _, _ => pure ()
+    -- phase 3: long edges are broken exactly as the model says; the heuristic only permutes positions
+    match stageOf c 2, stageOf c 3 with
+    | some a, some b =>
+      if a.nodes.size > 1 && a.layers.size > 1 then
+        out := out ++ [cmpG "T:break" ((breakLongEdges a).map forgetOrder) (forgetOrder b)]
+        out := out ++ [("K:ordered", orderedOK b, "layer lists are not ordered by LayerPos 0..k-1")]
+        -- the crossing counter model on the returned order equals the number the code logged
+        if logged.isSome then
+          match logQ with
+          | x :: rest =>
+            logQ := rest
+            match crossingsAll b with
+            | .ok n => out := out ++ [("T:crossings", (n : Int) == x, s!"model counts {n}, the code logged {x}")]
+            | .error e => out := out ++ [("T:crossings", false, s!"model error {e}")]
+          | [] => out := out ++ [("T:crossings", false, "no crossings event for this component")]
+    | _, _ => pure ()
     -- phase 4
     match stageOf c 3, stageOf c 4 with
     | some a, some b =>
       if cfg.p4 == 1 || cfg.p4 == 2 then
         out := out ++ [cmpG (if cfg.p4 == 1 then "T:phase4-valign" else "T:phase4-packright") (phase4Simple cfg.p4 cfg.ns cfg.ls a) b]
+      else if cfg.p4 == 0 && a.nodes.size > 1 then
+        let m := (execSinkColoring cfg.ns a).map fun (g, _) => assignYCoords cfg.ls g
+        out := out ++ [cmpG "T:phase4-sinkcoloring" m b]
       else if a.nodes.size > 1 then
         -- the other positioners: Y is `assignYCoords` of the layer heights they left behind
         let b0 : G := { b with nodes := b.nodes.map fun n => { n with y := 0 } }
